@@ -24,6 +24,9 @@ REPLAY_SRC = r'''
 // removeoverlaps() called repeatedly in one process under different border settings, with and without a fixed set and
 // the third pass; after each call: borders restored, sizes kept, no overlap above 1e-6 (with the caller's borders).
 #include "libvpsc/rectangle.h"
+#include "libvpsc/variable.h"
+#include "libvpsc/constraint.h"
+#include "libvpsc/solve_VPSC.h"
 #include <cstdio>
 #include <cmath>
 #include <set>
@@ -46,6 +49,21 @@ int main() {
     for (int i = 0; i < 6; ++i) for (int j = i + 1; j < 6; ++j)
       if (rs[i]->overlapX(rs[j]) > 1e-6 && rs[i]->overlapY(rs[j]) > 1e-6) { printf("round %d: rectangles %d and %d overlap by %g x %g\n", round, i, j, rs[i]->overlapX(rs[j]), rs[i]->overlapY(rs[j])); bad++; }
     for (int i = 0; i < 6; ++i) delete rs[i];
+  }
+  // generated y-constraints on a column of three rectangles (A overlaps B, C just clear of B): one separation per
+  // neighbouring pair, and the solved placement must be overlap-free
+  {
+    Rectangle::setXBorder(0); Rectangle::setYBorder(0);
+    Rectangles rs; rs.push_back(new Rectangle(0, 10, 0, 10)); rs.push_back(new Rectangle(0, 10, 5, 15)); rs.push_back(new Rectangle(0, 10, 15.5, 25.5));
+    Variables vs; for (int i = 0; i < 3; ++i) vs.push_back(new Variable(i, 0, 1));
+    Constraints cs; generateYConstraints(rs, vs, cs);
+    if (cs.size() != 2) { printf("generateYConstraints on three stacked rectangles emitted %zu constraint(s), expected one per neighbouring pair (2)\n", cs.size()); bad++; }
+    try {
+      Solver solver(vs, cs); solver.solve();
+      for (int i = 0; i < 3; ++i) rs[i]->moveCentreY(vs[i]->finalPosition);
+      for (int i = 0; i < 3; ++i) for (int j = i + 1; j < 3; ++j)
+        if (rs[i]->overlapX(rs[j]) > 1e-6 && rs[i]->overlapY(rs[j]) > 1e-6) { printf("placement satisfying the generated y-constraints leaves rectangles %d and %d overlapping by %g x %g\n", i, j, rs[i]->overlapX(rs[j]), rs[i]->overlapY(rs[j])); bad++; }
+    } catch (...) { printf("solver threw on the generated constraints\n"); }
   }
   if (bad) { printf("REPRODUCED: %d violation(s)\n", bad); return 1; }
   printf("not reproduced\n"); return 0;
@@ -158,6 +176,21 @@ def jobs(tier):
                   expect=[r'h_borders\.assertion'], replay=replay_c09,
                   note="projection fragment: every statement of removeoverlaps that does not mention xBorder/yBorder/setXBorder/setYBorder/EXTRA_GAP is dropped "
                        "(%d statements kept); premise checked every run: no other write to the statics in libvpsc" % proj.kept_statements))
+    # ---- scan-line Close event of generateX/YConstraints (first-above/first-below variant): one constraint per neighbour
+    gy = slice_func(RC, r'^void generateYConstraints\(const Rectangles& rs, const Variables& vars,', "generateYConstraints")
+    gx = slice_func(RC, r'^void generateXConstraints\(const Rectangles& rs, const Variables& vars,', "generateXConstraints")
+    cctor = slice_func("libvpsc/constraint.cpp", r'^Constraint::Constraint\(Variable \*left, Variable \*right, double gap, bool equality\)', "vpsc::Constraint::Constraint")
+    for nm, fn, endre in (("y", gy, r'#ifndef NDEBUG\s+deletes\+\+;'), ("x", gx, r'\}\s*result=scanline\.erase\(v\);')):
+        frag = fragment_between(fn, r'Node \*l=v->firstAbove, \*r=v->firstBelow;', endre, "generate%sConstraints [Close event, firstAbove/firstBelow]" % nm.upper())
+        ce_cxx = (base + c01.EXTERN + vp + rect_pre.replace("@RECT_INLINES@", inlines(False)) + node_pre +
+                  "namespace vpsc {\n" + S["statics"].text + "\n" + cctor.text + "\n"
+                  "// the fragment's free variables (the closing node and the constraint list) become parameters\n"
+                  "static void verif_close_event(Node *v, Constraints& cs)\n{\n" + frag.text + "\n}\n}\n" + wrappers +
+                  'extern "C" void w_close_event(void *v, void *cs) { vpsc::verif_close_event((vpsc::Node *)v, *(vpsc::Constraints *)cs); }\n')
+        js.append(Job("scanline_close_" + nm, "U", spec, "h_close_event", cxx=ce_cxx, defines=["JOB_close_event"], slices=[fn, frag, cctor],
+                      flags=["--no-malloc-may-fail"], replay=replay_c09,
+                      domain="every closing node with or without a neighbour above/below, any rectangle sizes; plain harness",
+                      expect=[r'h_close_event\.assertion']))
     return js
 
 
